@@ -32,10 +32,18 @@ def _find_child(arr, child):
     return (-1, None)
 
 
+def _add_copy(parent: Node, node: Node) -> Node:
+    """Append a copy of `node` (keeping the kind of a typed node)."""
+    kind = getattr(node, "kind", None)
+    if kind is None:
+        return parent.add(node)
+    return parent.add(node, kind=kind)
+
+
 def _copy_children(source: Node, dest: Node, add_set: set, meta: tuple) -> None:
-    assert source.has_children() and not dest.has_children()
+    assert source.children and not dest.children
     for n in source.children:
-        n_dest = dest.append_child(n)
+        n_dest = _add_copy(dest, n)
         add_set.add(n_dest._node_id)
         if meta:
             n_dest.set_meta(*meta)
@@ -83,9 +91,8 @@ def diff_node_formatter(node):
 
 
 def diff_tree(t0: Tree, t1: Tree, *, ordered=False, reduce=False) -> Tree:
-    from nutree import Tree
-
-    t2 = Tree(f"diff({t0.name!r}, {t1.name!r})")
+    # The result has the class of `t0`, so typed trees yield typed nodes
+    t2 = t0.__class__(f"diff({t0.name!r}, {t1.name!r})")
     added_nodes = set()
     removed_nodes = set()
 
@@ -96,7 +103,7 @@ def diff_tree(t0: Tree, t1: Tree, *, ordered=False, reduce=False) -> Tree:
             p0_data_ids.add(c0._data_id)
             i1, c1 = _find_child(p1.children, c0)
 
-            c2 = p2.add(c0)
+            c2 = _add_copy(p2, c0)
             if i0 == i1:
                 # Exact match of node and position
                 pass
@@ -138,7 +145,7 @@ def diff_tree(t0: Tree, t1: Tree, *, ordered=False, reduce=False) -> Tree:
         for c1 in p1.children:  # `p1.children` always returns an (empty) array
             # print("  ", c1, c1._data_id in p0_data_ids)
             if c1._data_id not in p0_data_ids:
-                c2 = p2.add(c1)
+                c2 = _add_copy(p2, c1)
                 c2.set_meta("dc", DC.ADDED)
                 added_nodes.add(c2._node_id)
                 if c1._children:
